@@ -241,6 +241,12 @@ func WithInternalRoundTimer(rt roundTimer) Opt {
 // for calculating state machine timeouts during consensus.
 // The context value controls the lifecycle of the timer.
 func WithTimeoutStrategy(ctx context.Context, s TimeoutStrategy) Opt {
+	if s == nil {
+		// A round timer wrapping a nil strategy would pass validation
+		// and then panic in the state machine on the first round entrance.
+		// Leave the timer unset so New reports the missing timeout strategy.
+		return WithInternalRoundTimer(nil)
+	}
 	return WithInternalRoundTimer(tmstate.NewStandardRoundTimer(ctx, s))
 }
 
